@@ -57,13 +57,10 @@ pub mod evs {
     pub open spec fn opt_view(o: Option<String>) -> Option<Seq<char>> { match o { Some(s) => Some(s@), None => None } }
     /// TRUSTED (dynamic dispatch): calling get_var through `&dyn Env` runs the implementation of the concrete type;
     /// stated per concrete environment type (a generic statement over `E: Env` is rejected by Verus' cycle check)
-    pub broadcast axiom fn ax_dyn_vars(e: &Vars, var: Seq<char>)
-        ensures #[trigger] binds::<dyn Env>(dynenv(e), var) == binds(e, var);
-    pub broadcast axiom fn ax_dyn_vars_ok(e: &Vars) ensures #[trigger] env_ok::<dyn Env>(dynenv(e)) == env_ok(e);
     pub broadcast axiom fn ax_dyn_bv(e: &crate::parse::VarList, var: Seq<char>)
         ensures #[trigger] binds::<dyn Env>(dynenv(e), var) == binds(e, var);
     pub broadcast axiom fn ax_dyn_bv_ok(e: &crate::parse::VarList) ensures #[trigger] env_ok::<dyn Env>(dynenv(e)) == env_ok(e);
-    pub broadcast group g_dyn { ax_dyn_vars, ax_dyn_vars_ok, ax_dyn_bv, ax_dyn_bv_ok }
+    pub broadcast group g_dyn { crate::ev::ax_dyn_vars, crate::ev::ax_dyn_vars_ok, ax_dyn_bv, ax_dyn_bv_ok }
     pub broadcast group g_env { ax_env_ok_vars, ax_skey_str, ax_skey_string, ax_qkey_str,
         ax_binds_sm_string, ax_binds_sm_str, ax_env_ok_sm_string, ax_env_ok_sm_str,
         ax_binds_vars, ax_cow_borrowed, ax_cow_owned, lemma_parts_view_one }
